@@ -210,7 +210,20 @@ func applySplitting(ssaFunc *ssa.Function, obfRand *mathrand.Rand) bool {
 		return false
 	}
 
-	splitIdx := 1 + obfRand.Intn(len(targetBlock.Instrs)-2)
+	// The phi nodes at the start of a block belong to its incoming edges,
+	// so they must all stay in the first part.
+	firstSplitIdx := 1
+	for firstSplitIdx < len(targetBlock.Instrs)-1 {
+		if _, ok := targetBlock.Instrs[firstSplitIdx].(*ssa.Phi); !ok {
+			break
+		}
+		firstSplitIdx++
+	}
+	if firstSplitIdx > len(targetBlock.Instrs)-2 {
+		return false
+	}
+
+	splitIdx := firstSplitIdx + obfRand.Intn(len(targetBlock.Instrs)-1-firstSplitIdx)
 
 	firstPart := make([]ssa.Instruction, splitIdx+1)
 	copy(firstPart, targetBlock.Instrs)
